@@ -489,6 +489,8 @@ func (g *caseGen) seqCase(emit func(hxlib.Case)) {
 			g.seed(k, 'J', []byte(g.pick("5", "[1]", "nope", "{")), "")
 		case x < 10:
 			g.seed(k, 'J', []byte{}, "")
+		case x < 11 && dn != "hmap" && dn != "hmsd":
+			g.seed(k, 'J', compact(g.jsonObj(0)), "")
 		default:
 			if (dn == "hmap" || dn == "hmsd") && g.noWhere {
 				g.seedStruct(k)
@@ -519,7 +521,12 @@ func (g *caseGen) seqCase(emit func(hxlib.Case)) {
 		case x < 74:
 			g.msg(append(bars(op, "update", g.key(), ""), g.payload()...))
 		case x < 84:
-			if g.noWhere {
+			if sk := g.structKeys(); len(sk) > 0 && g.rng.Intn(2) == 0 {
+				// native struct record: every field with every JSON value kind
+				f := g.pick("Name", "Score", "Tags", "Attr", "Flag", "Base", "Mutex", "Nope", "dbName", "meta")
+				g.msg(append(bars(op, "insert", sk[g.rng.Intn(len(sk))], ""), compact(map[string]any{f: g.jsonVal("snboa"[g.rng.Intn(5)], 1)})...))
+				g.r.Count("insert:into-native-struct")
+			} else if g.noWhere {
 				g.msg(append(bars(op, "insert", g.key(), ""), g.insertPayload()...))
 			} else {
 				g.msg(append(bars(op, "update", g.key(), ""), g.payload()...))
@@ -537,6 +544,15 @@ func (g *caseGen) seqCase(emit func(hxlib.Case)) {
 		}
 	}
 	g.flush(emit)
+}
+
+func (g *caseGen) structKeys() (ks []string) {
+	for _, k := range g.keys {
+		if s := g.shadow[k]; s != nil && s.sv != nil {
+			ks = append(ks, k)
+		}
+	}
+	return ks
 }
 
 func (g *caseGen) insertPayload() []byte {
